@@ -269,6 +269,34 @@ Example C05_example_delete_and_select :
                 /\ a = AInsertSelect MReplace "t" ["a"] "SELECT ""x"" FROM ""u"" WHERE ""x"">1").
 Proof. split; eexists; split; vm_compute; reflexivity. Qed.
 
+(* ---- beyond literal values: expressions over columns as SET values / inside criteria ---- *)
+(* The statement one would like for arbitrary value TERMS: the text the engine lexes (comments removed) still carries
+   the criterion that was given.  It is FALSE on the faithful model: Terms.render writes b - (-1) as "b"--1 (C02's
+   double-minus defect) and the engine reads everything behind it, WHERE included, as a comment.  These are the
+   known findings C05-update-set-double-minus / -where-double-minus / C05-delete-where-double-minus; the engine
+   half observes them as changed table contents. *)
+Definition C05_criterion_survives_any_value : Prop :=
+  forall c t (v : term) w st txt, dml_cls_ok c = true ->
+    run c (SUpdate (ptab t)) [KSet (CStr "a") (VTerm v); KWhere w] = Ok st -> dml_text st = Ok txt ->
+    exists sets wt, parse_dml (engine_lex txt) = Some (AUpdate t sets (Some wt)).
+Theorem C05_refuted_for_expressions : ~ C05_criterion_survives_any_value.
+Proof.
+  intros H.
+  destruct (H CSQLLite "t" (TArith OSub (TField "b" None None) (TValI (-1) None) None)
+              (TBasic CEq (TField "id" None None) (TValI 2 None) None) _ _ eq_refl eq_refl eq_refl) as (sets & wt & E).
+  vm_compute in E. discriminate E.
+Qed.
+Print Assumptions C05_refuted_for_expressions.
+Example C05_double_minus_swallows_where :
+  (match run CSQLLite (SUpdate (ptab "t")) [KSet (CStr "a") (VTerm (TArith OSub (TField "b" None None) (TValI (-1) None) None));
+                                            KWhere (TBasic CEq (TField "id" None None) (TValI 2 None) None)]
+   with Ok st => dml_text st | Err e => Err e end) = Ok "UPDATE ""t"" SET ""a""=""b""--1 WHERE ""id""=2"
+  /\ engine_lex "UPDATE ""t"" SET ""a""=""b""--1 WHERE ""id""=2" = "UPDATE ""t"" SET ""a""=""b"""
+  /\ engine_lex "DELETE FROM ""t"" WHERE ""a""--1=3" = "DELETE FROM ""t"" WHERE ""a"""
+  (* a "--" inside a string literal is data, not a comment *)
+  /\ engine_lex "INSERT INTO ""t"" VALUES ('--c',-1)" = "INSERT INTO ""t"" VALUES ('--c',-1)".
+Proof. vm_compute. repeat split; reflexivity. Qed.
+
 (* ---- outside the fragment, for the record ---- *)
 (* an alias on an inserted value is rendered inside VALUES (with_alias=True in _values_sql): the text leaves the grammar
    (and SQLite rejects it).  An alias is not part of a DML specification; the defect is C13's. *)
